@@ -16,17 +16,25 @@ Carry(s, i, c) == IF i > Len(s) THEN (IF c = 0 THEN <<>> ELSE <<c % Base>> \o Ca
                   ELSE LET v == s[i] + c IN <<v % Base>> \o Carry(s, i + 1, v \div Base)
 RECURSIVE Strip(_)
 Strip(a) == IF Len(a) > 0 /\ a[Len(a)] = 0 THEN Strip(SubSeq(a, 1, Len(a) - 1)) ELSE a
-Norm(s) == Strip(Carry(s, 1, 0))
+NormRaw(s) == Strip(Carry(s, 1, 0))
+Norm(s) == CHOOSE r \in {NormRaw(x) : x \in {s}} : TRUE
 MaxL(a, b) == IF Len(a) > Len(b) THEN Len(a) ELSE Len(b)
 At(a, i) == IF i >= 1 /\ i <= Len(a) THEN a[i] ELSE 0
-Add(a, b) == Norm([i \in 1..MaxL(a, b) |-> At(a, i) + At(b, i)])
-Mul(a, b) == IF Len(a) = 0 \/ Len(b) = 0 THEN <<>>
+(* TLC passes operator arguments unevaluated and re-evaluates them at every use; binding them through a singleton set *)
+(* ({Op(x, y) : x \in {a}, y \in {b}}) evaluates each argument exactly once, which keeps nested formulas linear.        *)
+Once1(Op(_), a) == CHOOSE r \in {Op(x) : x \in {a}} : TRUE
+Once2(Op(_, _), a, b) == CHOOSE r \in {Op(x, y) : x \in {a}, y \in {b}} : TRUE
+AddRaw(a, b) == Norm([i \in 1..MaxL(a, b) |-> At(a, i) + At(b, i)])
+Add(a, b) == Once2(AddRaw, a, b)
+MulRaw(a, b) == IF Len(a) = 0 \/ Len(b) = 0 THEN <<>>
              ELSE Norm([k \in 1..(Len(a) + Len(b) - 1) |->
                       FoldLeft(LAMBDA acc, i : acc + At(a, i) * At(b, k - i + 1), 0, [i \in 1..Len(a) |-> i])])
+Mul(a, b) == Once2(MulRaw, a, b)
 Eq(a, b) == Strip(a) = Strip(b)
 RECURSIVE LtFrom(_, _, _)
 LtFrom(a, b, i) == IF i = 0 THEN FALSE ELSE IF At(a, i) < At(b, i) THEN TRUE ELSE IF At(a, i) > At(b, i) THEN FALSE ELSE LtFrom(a, b, i - 1)
-Lt(a, b) == LtFrom(a, b, MaxL(a, b))
+LtRaw(a, b) == LtFrom(a, b, MaxL(a, b))
+Lt(a, b) == \E x \in {a}, y \in {b} : LtRaw(x, y)
 Le(a, b) == Lt(a, b) \/ Eq(a, b)
 IsZero(a) == Strip(a) = <<>>
 Small(n) == Norm(<<n>>)        \* n < 2^31
